@@ -30,7 +30,9 @@ var (
 	verifC39IDBase   int
 	verifC39Epochs   map[chan struct{}]int
 	verifC39EpBase   int
-	verifC39All      []*DestHandler
+	verifC39Seen     []uuid.UUID
+	verifC39Ptr      map[uuid.UUID]*DestHandler
+	verifC39Avail    bool
 	verifC39Streams  map[*stream.Stream]int
 	verifC39Baseline int
 	verifC39Dead     bool
@@ -73,25 +75,81 @@ func verifC39FmtConf(c conf.ForwardDest) string {
 // number of goroutines whose root function is DestHandler.run
 var verifC39StackBuf = make([]byte, 256<<10)
 
+// Forwarder goroutines of this package, from the goroutine dump: goroutines created by
+// (*DestHandler).start (counted even before they have run), or — should start be renamed — goroutines
+// with a (*DestHandler).run frame.
 func verifC39Goroutines() int {
 	for {
 		n := runtime.Stack(verifC39StackBuf, true)
 		if n < len(verifC39StackBuf) {
-			return strings.Count(string(verifC39StackBuf[:n]), "forward.(*DestHandler).run(")
+			d := string(verifC39StackBuf[:n])
+			a := strings.Count(d, "created by github.com/bluenviron/mediamtx/internal/forward.(*DestHandler).start ")
+			b := strings.Count(d, "forward.(*DestHandler).run(")
+			if b > a {
+				return b
+			}
+			return a
 		}
 		verifC39StackBuf = make([]byte, 2*len(verifC39StackBuf))
 	}
 }
 
-func verifC39Live(h *DestHandler) bool {
-	if h.done == nil {
-		return false
+// ---- optional seams into unexported state (one shim file each, see shim_*.go; a shim that stops
+// compiling is dropped by ./check and the harness goes on with the exported surface) ----
+
+func verifC39Handlers(m *Manager) []*DestHandler {
+	if f, ok := verifutil.Funcs["c39_handlers"].(func(*Manager) []*DestHandler); ok {
+		return f(m)
+	}
+	return nil
+}
+
+func verifC39Done(h *DestHandler) (chan struct{}, bool) {
+	if f, ok := verifutil.Funcs["c39_done"].(func(*DestHandler) chan struct{}); ok {
+		return f(h), true
+	}
+	return nil, false
+}
+
+func verifC39StartedTok(m *Manager) string {
+	if f, ok := verifutil.Funcs["c39_started"].(func(*Manager) bool); ok {
+		if f(m) {
+			return "1"
+		}
+		return "0"
+	}
+	return "x"
+}
+
+func verifC39StreamTok(m *Manager) string {
+	if f, ok := verifutil.Funcs["c39_stream"].(func(*Manager) *stream.Stream); ok {
+		return fmt.Sprint(verifC39Streams[f(m)])
+	}
+	return "x"
+}
+
+func verifC39Cancel(h *DestHandler) bool {
+	if f, ok := verifutil.Funcs["c39_cancel"].(func(*DestHandler)); ok {
+		f(h)
+		return true
+	}
+	return false
+}
+
+// is the goroutine of the handler's current done channel alive?  (known only through the done seam)
+func verifC39Live(h *DestHandler) (live bool, known bool) {
+	d, ok := verifC39Done(h)
+	if !ok {
+		return false, false
+	}
+	if d == nil {
+		return false, true
 	}
 	select {
-	case <-h.done:
-		return false
+	case <-d:
+		return false, true
 	default:
-		return true
+		return true, true
 	}
 }
 
@@ -133,90 +191,85 @@ func verifC39Timed(f func()) (res string) {
 	}
 }
 
-// listIndex: first-seen handlers/channels get the number base+index (the model numbers them the same
-// way: the object created for list index i by an operation is nextId+i / nextEpoch+i).
+func verifC39NonIdle(items []defs.APIForwardDest) int {
+	n := 0
+	for _, it := range items {
+		if it.State != defs.APIForwardDestStateIdle {
+			n++
+		}
+	}
+	return n
+}
+
+// First-seen handlers/channels get the number base+index (the model numbers them the same way: the
+// object created for list index i by an operation is nextId+i / nextEpoch+i).
 func verifC39Observe(advanceIDs, advanceEpochs bool) string {
 	m := verifC39M
-	hs := m.destHandlers
 
-	// quiescence 1: every started goroutine has left the idle state (it never returns to it before it exits)
-	deadline := time.Now().Add(1500 * time.Millisecond)
-	for {
-		ok := true
-		for _, h := range hs {
-			if verifC39Live(h) && h.APIItem().State == defs.APIForwardDestStateIdle {
-				ok = false
+	// quiescence, through the exported surface only: every forwarder goroutine that exists has left
+	// the idle state (it never returns to it before it exits) and every goroutine whose handler is idle
+	// has returned.  In a correct tree this settles within microseconds; otherwise bounded wait.
+	deadline := time.Now().Add(400 * time.Millisecond)
+	for verifC39Goroutines()-verifC39Baseline != verifC39NonIdle(m.APIList().Items) {
+		if time.Now().After(deadline) {
+			verifC39Wasted += 400 * time.Millisecond
+			break
+		}
+		time.Sleep(200 * time.Microsecond)
+	}
+
+	items := m.APIList().Items
+	hs := verifC39Handlers(m)
+	if len(hs) != len(items) {
+		hs = nil
+	}
+	for i, it := range items {
+		if hs != nil && hs[i].ID() != it.ID {
+			return "apilist-item-differs"
+		}
+		if _, ok := verifC39IDs[it.ID]; !ok {
+			verifC39IDs[it.ID] = verifC39IDBase + i
+			verifC39Seen = append(verifC39Seen, it.ID)
+			if hs != nil {
+				verifC39Ptr[it.ID] = hs[i]
 			}
 		}
-		if ok {
-			break
-		}
-		if time.Now().After(deadline) {
-			verifC39Wasted += 1500 * time.Millisecond
-			break
-		}
-		time.Sleep(200 * time.Microsecond)
-	}
-	// quiescence 2: goroutines that closed their done channel have really returned, new ones have
-	// entered run (after a double Start the count stays above `open`: leaked goroutines; bounded wait)
-	open := 0
-	counted := map[*DestHandler]bool{}
-	for _, h := range append(append([]*DestHandler{}, verifC39All...), hs...) {
-		if !counted[h] && verifC39Live(h) {
-			open++
-		}
-		counted[h] = true
-	}
-	deadline = time.Now().Add(150 * time.Millisecond)
-	for verifC39Goroutines()-verifC39Baseline != open {
-		if !time.Now().Before(deadline) {
-			verifC39Wasted += 150 * time.Millisecond
-			break
-		}
-		time.Sleep(200 * time.Microsecond)
-	}
-
-	for i, h := range hs {
-		if _, ok := verifC39IDs[h.uuid]; !ok {
-			verifC39IDs[h.uuid] = verifC39IDBase + i
-			verifC39All = append(verifC39All, h)
-		}
-		if h.done != nil {
-			if _, ok := verifC39Epochs[h.done]; !ok {
-				verifC39Epochs[h.done] = verifC39EpBase + i
+		if hs != nil {
+			if d, ok := verifC39Done(hs[i]); ok && d != nil {
+				if _, ok2 := verifC39Epochs[d]; !ok2 {
+					verifC39Epochs[d] = verifC39EpBase + i
+				}
 			}
 		}
 	}
 	if advanceIDs {
-		verifC39IDBase += len(hs)
+		verifC39IDBase += len(items)
 	}
 	if advanceEpochs {
-		verifC39EpBase += len(hs)
+		verifC39EpBase += len(items)
 	}
 
-	current := map[*DestHandler]bool{}
-	for _, h := range hs {
-		current[h] = true
+	current := map[uuid.UUID]bool{}
+	for _, it := range items {
+		current[it.ID] = true
 	}
 	retired := 0
 	var rl []string
-	for _, h := range verifC39All {
-		if !current[h] {
-			retired++
-			if verifC39Live(h) || h.APIItem().State != defs.APIForwardDestStateIdle {
-				rl = append(rl, fmt.Sprint(verifC39IDs[h.uuid]))
+	for _, id := range verifC39Seen {
+		if current[id] {
+			continue
+		}
+		retired++
+		if h := verifC39Ptr[id]; h != nil {
+			live, _ := verifC39Live(h)
+			if live || h.APIItem().State != defs.APIForwardDestStateIdle {
+				rl = append(rl, fmt.Sprint(verifC39IDs[id]))
 			}
 		}
 	}
 	rls := "-"
 	if len(rl) > 0 {
 		rls = strings.Join(rl, ",")
-	}
-
-	// the public view must agree with the fields
-	api := m.APIList()
-	if len(api.Items) != len(hs) {
-		return "apilist-length-differs"
 	}
 
 	b := func(v bool) string {
@@ -226,49 +279,39 @@ func verifC39Observe(advanceIDs, advanceEpochs bool) string {
 		return "0"
 	}
 	var sb strings.Builder
-	fmt.Fprintf(&sb, "s=%s t=%d g=%d r=%d rl=%s h=", b(m.started), verifC39Streams[m.stream],
+	fmt.Fprintf(&sb, "s=%s t=%s g=%d r=%d rl=%s h=", verifC39StartedTok(m), verifC39StreamTok(m),
 		verifC39Goroutines()-verifC39Baseline, retired, rls)
-	for i, h := range hs {
-		it := api.Items[i]
-		if it.ID != h.uuid || it.Pos != h.Pos || it.Conf != h.Conf {
-			return "apilist-item-differs"
-		}
-		if got, err := m.APIGet(h.uuid); err != nil || got.ID != h.uuid {
+	for i, it := range items {
+		if got, err := m.APIGet(it.ID); err != nil || got.ID != it.ID || got.Conf != it.Conf {
 			return "apiget-differs"
 		}
-		ep := 0
-		if h.done != nil {
-			ep = verifC39Epochs[h.done]
+		api := it.State != defs.APIForwardDestStateIdle
+		live, ep := api, 0
+		if hs != nil {
+			if l, known := verifC39Live(hs[i]); known {
+				live = l
+				if d, _ := verifC39Done(hs[i]); d != nil {
+					ep = verifC39Epochs[d]
+				}
+			}
 		}
-		fmt.Fprintf(&sb, " %d|%d|%s|%d|%s|%s", verifC39IDs[h.uuid], it.Pos, b(verifC39Live(h)), ep,
-			b(it.State != defs.APIForwardDestStateIdle), verifC39FmtConf(it.Conf))
+		fmt.Fprintf(&sb, " %d|%d|%s|%d|%s|%s", verifC39IDs[it.ID], it.Pos, b(live), ep, b(api), verifC39FmtConf(it.Conf))
 	}
 	return sb.String()
 }
 
 func verifC39Cleanup() {
-	// stop whatever the previous history left running (not part of any answer)
-	for _, h := range verifC39All {
-		if h.ctxCancel != nil {
-			h.ctxCancel()
+	// stop whatever the previous history left running (not part of any answer); after a panic the
+	// manager may hold its mutex for ever, so nothing that locks is called on a dead manager
+	for _, id := range verifC39Seen {
+		if h := verifC39Ptr[id]; h != nil {
+			verifC39Cancel(h)
 		}
 	}
-	if verifC39M != nil {
-		for _, h := range verifC39M.destHandlers {
-			if h.ctxCancel != nil {
-				h.ctxCancel()
-			}
-		}
+	if verifC39M != nil && !verifC39Dead && verifC39Avail {
+		verifC39Timed(verifC39M.Stop) // the exported way
 	}
-	deadline := time.Now().Add(3 * time.Second)
-	for _, h := range verifC39All {
-		if h.done != nil {
-			select {
-			case <-h.done:
-			case <-time.After(time.Until(deadline)):
-			}
-		}
-	}
+	verifC39Avail = false
 	for s := range verifC39Streams {
 		if s != nil {
 			s.Close()
@@ -288,7 +331,9 @@ func verifC39Exec(op string) string {
 		verifC39IDBase = 0
 		verifC39Epochs = map[chan struct{}]int{}
 		verifC39EpBase = 1
-		verifC39All = nil
+		verifC39Seen = nil
+		verifC39Ptr = map[uuid.UUID]*DestHandler{}
+		verifC39Avail = false
 		verifC39Streams = map[*stream.Stream]int{nil: 0}
 		verifC39Dead = false
 		// every goroutine of the previous history has been cancelled and has closed its done channel;
@@ -320,6 +365,7 @@ func verifC39Exec(op string) string {
 		}
 		strm := verifC39NewStream()
 		verifC39Streams[strm] = verifutil.Atoi(f[1])
+		verifC39Avail = true
 		if r := verifC39Timed(func() { verifC39M.Start(strm) }); r != "" {
 			verifC39Dead = true
 			return r
@@ -330,6 +376,7 @@ func verifC39Exec(op string) string {
 		if verifC39Dead {
 			return "dead"
 		}
+		verifC39Avail = false
 		if r := verifC39Timed(verifC39M.Stop); r != "" {
 			verifC39Dead = true
 			return r
@@ -341,7 +388,7 @@ func verifC39Exec(op string) string {
 			return "dead"
 		}
 		fw := verifC39ParseConfs(f[1:])
-		wasStarted := verifC39M.started
+		wasStarted := verifC39Avail // Start/Stop alternate in every generated history that reaches this point
 		if r := verifC39Timed(func() { verifC39M.ReloadConf(fw) }); r != "" {
 			verifC39Dead = true
 			return r
